@@ -246,9 +246,24 @@ func GenWorld(rng *rand.Rand, p Profile) *World {
 		maxW = 5
 	}
 	nW := 2 + rng.IntN(maxW-1)
+	// First make sure that (most) size classes of predeclared queues have
+	// a worker, so that retries on the largest size class actually run.
+	type slot struct {
+		pq PQDef
+		sc uint32
+	}
+	var slots []slot
+	for _, pq := range w.PQs {
+		for _, sc := range pq.SizeClasses {
+			slots = append(slots, slot{pq, sc})
+		}
+	}
+	rng.Shuffle(len(slots), func(a, b int) { slots[a], slots[b] = slots[b], slots[a] })
 	for i := 0; i < nW; i++ {
 		wd := WorkerDef{ID: map[string]string{"host": fmt.Sprintf("h%d", i/2), "thread": fmt.Sprintf("%d", i%2)}}
-		if rng.IntN(5) > 0 || !p.Routing {
+		if i < len(slots) && rng.IntN(6) > 0 {
+			wd.Prefix, wd.Props, wd.SizeClass = slots[i].pq.Prefix, slots[i].pq.Props, slots[i].sc
+		} else if rng.IntN(5) > 0 || !p.Routing {
 			pq := pick(rng, w.PQs)
 			wd.Prefix, wd.Props = pq.Prefix, pq.Props
 			wd.SizeClass = pick(rng, pq.SizeClasses)
@@ -1322,14 +1337,16 @@ func (c *Case) genStep() (Step, bool) {
 				s.State, s.Hash, s.Size = "executing", assigned.Hash, assigned.SizeBytes
 			case assigned != nil && r < 85:
 				s.State = "idle" // crashed and restarted
-			case r < 88:
+			case assigned == nil && r < 86:
+				s.State = "idle"
+			case r < 94:
 				a := pick(rng, c.W.Actions)
 				s.State, s.Hash, s.Size = pick(rng, []string{"executing", "completed"}), a.Hash, a.Size
 				s.Out = "ok"
 				if assigned != nil && assigned.Hash == a.Hash {
 					s.Size++ // make sure it is a wrong digest
 				}
-			case r < 89:
+			case r < 96:
 				s.State = pick(rng, []string{"none", "nodigest"})
 			default:
 				s.State = "idle"
